@@ -181,6 +181,16 @@ impl Session {
         if self.panicked {
             return;
         }
+        heartbeat(|| {
+            let short = |o: &Op| match o {
+                Op::Write(b) => format!("write({} bytes)", b.len()),
+                Op::WriteAll(b) => format!("write_all({} bytes)", b.len()),
+                o => format!("{:?}", o),
+            };
+            let toks: Vec<String> = self.steps.iter().map(|s| if s.tok.len() > 24 { format!("{}..", &s.tok[..24]) } else { s.tok.clone() }).collect();
+            format!("streaming body, chunk size {}, gzip level {}: after [{}] the operation {} did not return",
+                    self.cap, self.level, toks.join(";"), short(op))
+        });
         match op {
             Op::Write(bs) => {
                 if self.w.is_some() {
